@@ -1007,7 +1007,9 @@ func copyVersions(srcStore, dstStore dvid.Store, d1, d2 dvid.Data, uuids []dvid.
 					var lastKV *storage.KeyValue
 					for _, v := range versionsToStore {
 						curKV := kvsToStore[v]
-						if lastKV == nil || (curKV != nil && bytes.Compare(lastKV.V, curKV.V) != 0) {
+						// a version repeats the one written before it when it holds the same value *and* is a
+						// deletion exactly when that one is (a tombstone's value is empty, like a stored empty value)
+						if lastKV == nil || (curKV != nil && (bytes.Compare(lastKV.V, curKV.V) != 0 || storage.Key(lastKV.K).IsTombstone() != storage.Key(curKV.K).IsTombstone())) {
 							if curKV != nil {
 								keybuf := make(storage.Key, len(curKV.K))
 								copy(keybuf, curKV.K)
